@@ -1,19 +1,59 @@
 /-
-  Property C18, the GENERAL serialisability theorem: any number of connections, any programs, any
-  schedule of lock sections.  (Work in progress: this first version contains the theorem for
-  programs of one-section commands.)
+  Property C18, the GENERAL serialisability theorem: ANY number of connections, each with ANY
+  program (list of command lines), ANY schedule of their lock sections.
+
+  Semantics (`Irc/Props/C18GeneralLemmas0.lean`): `Sys` = the `CState` of `Irc/Conc.lean` + per
+  connection the rest of its program (`todo`), the sections of its command in progress still to run
+  (`pend`) and the line of that command (`cur`).  `move cfg split c` = connection `c` is granted its
+  next section: if nothing is pending it takes the next line of its program and computes the section
+  list `split auth c line` from its OWN `authenticated` flag at this moment; then it executes the
+  first pending section (`Conc.stepSection`).  A schedule is a `List Nat` (who moves next);
+  `runSched` folds `move` and is `none` if a picked connection has nothing to do.  So the runs of
+  `runSched` are exactly the interleavings of the connections' section sequences that respect every
+  connection's program order, with the dynamic choice of the section lists.
+
+  How the known obstacles are dealt with
+  1. THE CORNER (nick free at A1, decision "good", nick taken at A3) is not serialisable
+     (`corner_not_serialisable` in C18.lean).  Hypothesis `noCorner cfg split sched S₀ = true`: at
+     every executed `.authCommit c` that belongs to a split `NICK` and finds `pc c = .toCommit r`,
+     the nick recorded in `c`'s connection record is free in the state the section runs in
+     (`cornerFree`, a `Bool`, checked along the run).  For PASS / USER / CAP END a taken nick at A3 is
+     not a corner and is NOT excluded.
+  2. THE COMMAND COUNTERS: way out (a).  `general_serialisable` is about the section lists WITHOUT
+     the `.count` sections (`splitCore`), and the sequential reference is the back-to-back run of
+     the cores (`seqStep cfg splitCore`, `seqRun cfg splitCore`); `seqStep_core_vs_whole` relates
+     the core to the whole command: `whole = core` for one-section commands and
+     `whole = count ; core` for the split ones (this is `split_is_sequential`).
+  3. KILL / DIE / SQUIT are ALLOWED in the programs.  They are independent of a connection only
+     where it owns no user; the proof carries "the sequential state satisfies `InvCore`" (the
+     invariant of `Irc/Inv.lean`, preserved by every `handleLine`: `invCore_handleLine`) through the
+     run, from which "a connection in the middle of a split command is unauthenticated in the
+     sequential state, hence owns no user" follows.  Hypothesis: `InvCore` of the INITIAL world
+     (it holds in every reachable world: `inv_reachable`).
+  4. `.teardown` sections are not part of programs.
+
+  Proof (files `Irc/Props/C18GeneralLemmas0 … 7.lean`): refinement.  Invariant `SimW`: there is a
+  base state `ρ` such that the interleaved state is `ρ` + the LOCAL updates (own record, own reply
+  buffer, own program counter) of the connections that are between A1 / prelude and A3, and the
+  sequential run of the commands serialised so far is `ρ` + the local updates of the connections
+  that are "behind" (NICK, nick free at A1, decision not "good": serialised at A1, its local A2
+  still to run).  Serialisation points: one-section command / PRIVMSG / NOTICE = its (first)
+  section; unregistered PASS / USER / CAP END = its `authCommit`; unregistered NICK = A1 if the
+  nick is taken at A1 or the decision is not "good", A3 otherwise.
 -/
-import Irc.Props.C18GeneralLemmas1
+import Irc.Props.C18GeneralLemmas7
 
 namespace Irc.C18
 
 open Irc Irc.Conc Irc.C18G
 
+/-! ## the warm-up: one-section commands -/
+
 /-- **any number of connections, one-section commands only.**  Every schedule of the lock sections
     of programs that consist of one-section commands (everything but `NICK` / `PASS` / `USER` /
     `CAP END`) is the sequential execution (`handleLine`, one command at a time) of an
     order-respecting merge `cmds` of the programs: same `CState` (world, counters, every reply
-    buffer, the global push sequence). -/
+    buffer, the global push sequence).  No hypothesis on the initial state. -/
 theorem general_serialisable_atomic (cfg : Cfg) (S₀ S : Sys) (sched : List Nat)
     (hpend : ∀ c, S₀.pend c = []) (hone : ∀ c, ∀ l ∈ S₀.todo c, OneSection c l)
     (hrun : runSched cfg splitCore sched S₀ = some S) :
@@ -24,5 +64,194 @@ theorem general_serialisable_atomic (cfg : Cfg) (S₀ S : Sys) (sched : List Nat
   obtain ⟨cmds, h⟩ := runSched_sim' (AtomicSim cfg S₀.σ S₀.todo)
     (fun S done c S' hR hm => atomicSim_step hR hm) sched S₀ [] S h0 hrun
   exact ⟨cmds, h.progs, h.state⟩
+
+/-! ## the general theorem -/
+
+/-- **`general_serialisable`.**  `cs` lists the connections that take part (all others have an
+    empty program).  Initially: every participant is live, the world satisfies `InvCore` (true in
+    every reachable world), every task is between two commands (`pc = idle`, nothing pending).
+    For EVERY schedule `sched` that can be run (`runSched … = some S`), that never hits the corner
+    (`noCorner`) and after which no command is in progress (`S.pend c = []` for all `c ∈ cs`), there is a
+    list `cmds` of whole commands such that
+    (1) for every connection `c` the lines of `c` in `cmds`, in order, followed by what is left of
+        `c`'s program, are `c`'s program — `cmds` is an order-respecting merge of the executed
+        parts of the programs (of the whole programs if `S.todo c = []`), and
+    (2) executing `cmds` ONE AT A TIME from the initial state gives EXACTLY the final `CState` of
+        the interleaved run: the same world (shared state and every connection record), the same
+        program counters, the same direct-reply stream `dir d` of every connection and the same
+        global push sequence `sent` (hence the same queue `queueOf d` of every receiver).
+    "One at a time" is `seqRun cfg splitCore` = the sections of each command back to back, without
+    the counter section (way out (a) for the relaxed-atomic command counters); see
+    `seqStep_core_vs_whole` for its relation to `handleLine`.  KILL / DIE / SQUIT lines are
+    allowed. -/
+theorem general_serialisable (cfg : Cfg) (cs : List Nat) (S₀ S : Sys) (sched : List Nat)
+    (hnd : cs.Nodup) (hcs : ∀ c, c ∉ cs → S₀.todo c = [])
+    (hlive : ∀ c ∈ cs, (S₀.σ.w.conn? c).isSome = true) (hinv : InvCore S₀.σ.w)
+    (hpc : ∀ c, S₀.σ.pc c = .idle) (hpend : ∀ c, S₀.pend c = [])
+    (hrun : runSched cfg splitCore sched S₀ = some S)
+    (hnc : noCorner cfg splitCore sched S₀ = true)
+    (hdone : ∀ c ∈ cs, S.pend c = []) :
+    ∃ cmds : List (Nat × Str), (∀ c, S₀.todo c = linesOf c cmds ++ S.todo c) ∧
+      S.σ = seqRun cfg splitCore cmds S₀.σ := by
+  have hlive' : ∀ c ∈ cs, Live S₀.σ.w c := by
+    intro c hc
+    obtain ⟨cn, hcn⟩ := Option.isSome_iff_exists.mp (hlive c hc)
+    obtain ⟨hm, hid⟩ := Tear.conn?_some hcn
+    exact ⟨cn, hm, hid⟩
+  have h0 := simW_init (cfg := cfg) hnd hcs hlive' hinv hpc hpend
+  obtain ⟨cmds, ρ, st, h⟩ := runSched_sim
+    (R := fun S done => ∃ ρ st, SimW cfg cs S₀.σ S₀.todo S done ρ st)
+    (fun S done c S' hR hcf hm => by
+      obtain ⟨ρ, st, h⟩ := hR
+      exact sim_step h hcf hm)
+    sched S₀ [] S ⟨_, _, h0⟩ hnc hrun
+  exact ⟨cmds, simW_final h hdone⟩
+
+/-- the same with the equalities spelled out -/
+theorem general_serialisable_spelled_out (cfg : Cfg) (cs : List Nat) (S₀ S : Sys)
+    (sched : List Nat) (hnd : cs.Nodup) (hcs : ∀ c, c ∉ cs → S₀.todo c = [])
+    (hlive : ∀ c ∈ cs, (S₀.σ.w.conn? c).isSome = true) (hinv : InvCore S₀.σ.w)
+    (hpc : ∀ c, S₀.σ.pc c = .idle) (hpend : ∀ c, S₀.pend c = [])
+    (hrun : runSched cfg splitCore sched S₀ = some S)
+    (hnc : noCorner cfg splitCore sched S₀ = true)
+    (hdone : ∀ c ∈ cs, S.pend c = []) :
+    ∃ cmds : List (Nat × Str), (∀ c, S₀.todo c = linesOf c cmds ++ S.todo c) ∧
+      S.σ.w = (seqRun cfg splitCore cmds S₀.σ).w ∧
+      S.σ.pc = (seqRun cfg splitCore cmds S₀.σ).pc ∧
+      (∀ d, S.σ.dir d = (seqRun cfg splitCore cmds S₀.σ).dir d) ∧
+      S.σ.sent = (seqRun cfg splitCore cmds S₀.σ).sent ∧
+      (∀ d, S.σ.queueOf d = (seqRun cfg splitCore cmds S₀.σ).queueOf d) := by
+  obtain ⟨cmds, h1, h2⟩ :=
+    general_serialisable cfg cs S₀ S sched hnd hcs hlive hinv hpc hpend hrun hnc hdone
+  exact ⟨cmds, h1, by rw [h2], by rw [h2], fun d => by rw [h2], by rw [h2], fun d => by rw [h2]⟩
+
+/-- **the core of a command and the whole command** (the counters, way out (a)): for a live
+    connection between two commands, `handleLine` (`.whole c line`) is the core of the command, or
+    — for the split commands — the counter section followed by the core. -/
+theorem seqStep_core_vs_whole {cfg : Cfg} {c : Nat} {line : Str} {τ : CState} {cn : Conn}
+    (h : τ.w.conn? c = some cn) (hpc : τ.pc c = .idle) :
+    stepSection cfg (.whole c line) τ = seqStep cfg splitCore (c, line) τ ∨
+    ∃ i, stepSection cfg (.whole c line) τ =
+      seqStep cfg splitCore (c, line) (stepSection cfg (.count c i) τ) := by
+  have hs := split_is_sequential (cfg := cfg) (line := line) h hpc
+  rcases splitCommand_eq cn.authenticated c line with e | ⟨i, e⟩
+  · left
+    rw [← hs, e, seqStep_eq, authOf_of h]
+  · right
+    refine ⟨i, ?_⟩
+    rw [← hs, e, runSections_cons, seqStep_eq]
+    have : authOf (stepSection cfg (.count c i) τ) c = cn.authenticated := by
+      rw [step_count]
+      exact authOf_of (σ := { τ with w := bumpCount τ.w i }) h
+    rw [this]
+
+/-! ## non-vacuity: three connections, two of them racing through split commands
+
+Connections 1 and 2 are connected and have sent `USER`; connection 3 is registered as `c`.
+Programs: 1 = `PASS x`, `NICK a`;  2 = `NICK b`, `NICK a`;  3 = `PRIVMSG c :hi`, `PING x`.
+The schedule interleaves the two registrations section by section (both are between A1 and A3 at
+the same time) with the one-section commands of 3; the second command of 2 finds it registered
+(one section) and the nick `a` taken. -/
+
+namespace GDemo
+open Demo
+
+def evs : List Event :=
+  [.connect 1 ip, .connect 2 ip, .connect 3 ip, .line 1 (str "USER u 0 * :U"),
+   .line 2 (str "USER v 0 * :V"), .line 3 (str "NICK c"), .line 3 (str "USER c 0 * :C")]
+
+def prog : Nat → List Str := fun c =>
+  if c = 1 then [str "PASS x", str "NICK a"]
+  else if c = 2 then [str "NICK b", str "NICK a"]
+  else if c = 3 then [str "PRIVMSG c :hi", str "PING x"]
+  else []
+
+def S₀ : Sys := { σ := { w := run cfg evs }, todo := prog }
+
+def sched : List Nat := [1, 2, 3, 1, 1, 2, 3, 1, 2, 1, 2, 3]
+
+/-- the sections in the order in which this schedule executes them -/
+def trace : List Section :=
+  [.prelude 1 (.PASS (str "x")), .nickCheck 2 (str "b"), .whole 3 (str "PRIVMSG c :hi"),
+   .authCommit 1, .nickCheck 1 (str "a"), .authDecide 2, .touch 3, .authDecide 1, .authCommit 2,
+   .authCommit 1, .whole 2 (str "NICK a"), .whole 3 (str "PING x")]
+
+/-- the final system of the run -/
+def S : Sys := (runSched cfg splitCore sched S₀).getD S₀
+
+/-- the serialisation the proof constructs: the commands in the order of their serialisation
+    points (the `whole` of 3, the `authCommit` of 1's PASS, the A3 of 2, the A3 of 1, …) -/
+def cmds : List (Nat × Str) :=
+  [(3, str "PRIVMSG c :hi"), (1, str "PASS x"), (2, str "NICK b"), (1, str "NICK a"),
+   (2, str "NICK a"), (3, str "PING x")]
+
+end GDemo
+
+open GDemo in
+set_option maxRecDepth 16384 in
+/-- the schedule can be run -/
+theorem gdemo_run : runSched Demo.cfg splitCore sched S₀ = some S := by
+  have h : (runSched Demo.cfg splitCore sched S₀).isSome = true := by decide
+  unfold GDemo.S
+  cases h' : runSched Demo.cfg splitCore sched S₀ with
+  | none => rw [h'] at h; cases h
+  | some s => rfl
+
+open GDemo in
+/-- the initial world is reachable, hence satisfies the invariant -/
+theorem gdemo_inv : InvCore S₀.σ.w :=
+  (inv_run (cfg := Demo.cfg) (evs := evs) (by decide)).toInvCore
+
+open GDemo in
+set_option maxRecDepth 16384 in
+/-- all hypotheses of `general_serialisable` hold for this run -/
+example : ∃ cmds : List (Nat × Str), (∀ c, S₀.todo c = linesOf c cmds ++ S.todo c) ∧
+    S.σ = seqRun Demo.cfg splitCore cmds S₀.σ :=
+  general_serialisable Demo.cfg [1, 2, 3] S₀ S sched (by decide)
+    (by intro c hc; simp at hc; simp [S₀, prog, hc])
+    (by decide) gdemo_inv (fun _ => rfl) (fun _ => rfl) gdemo_run (by decide) (by decide)
+
+open GDemo in
+set_option maxRecDepth 16384 in
+-- the run is the one described: two registrations in flight at the same time
+example : S.σ.sent = (runSections Demo.cfg trace S₀.σ).sent ∧
+    S.σ.dir 1 = (runSections Demo.cfg trace S₀.σ).dir 1 ∧
+    (runSections Demo.cfg (trace.take 8) S₀.σ).pc 1 = .toCommit false ∧
+    (runSections Demo.cfg (trace.take 8) S₀.σ).pc 2 = .toCommit false := by decide
+
+open GDemo in
+set_option maxRecDepth 16384 in
+-- the outcome is not trivial: both register (18-line welcome bursts), 2 is then refused `a`
+example : Map.keys S.σ.w.users = [str "c", str "b", str "a"] ∧
+    Demo.authOf S.σ 1 = true ∧ Demo.authOf S.σ 2 = true ∧ Demo.nickOf S.σ 2 = some (str "b") ∧
+    (S.σ.dir 1).length = 18 ∧ (S.σ.dir 2).length = 19 ∧ (S.σ.dir 3).length = 1 ∧
+    S.σ.sent = [(3, 3, str ":c!~c@10.0.0.1 PRIVMSG c :hi")] := by decide
+
+/-! the serialisation `cmds`, exhibited and checked component by component (the two `decide +kernel`
+    compare whole user tables / connection tables; kernel evaluation, no extra axiom) -/
+
+open GDemo in
+set_option maxRecDepth 16384 in
+example : ∀ c ∈ [1, 2, 3], S₀.todo c = linesOf c cmds ++ S.todo c := by decide
+
+open GDemo in
+set_option maxRecDepth 16384 in
+example : S.σ.w.users = (seqRun Demo.cfg splitCore cmds S₀.σ).w.users := by decide +kernel
+
+open GDemo in
+set_option maxRecDepth 16384 in
+example : S.σ.w.conns = (seqRun Demo.cfg splitCore cmds S₀.σ).w.conns := by decide +kernel
+
+open GDemo in
+set_option maxRecDepth 16384 in
+example : S.σ.sent = (seqRun Demo.cfg splitCore cmds S₀.σ).sent := by decide
+
+open GDemo in
+set_option maxRecDepth 16384 in
+example : ∀ c ∈ [1, 2, 3], S.σ.dir c = (seqRun Demo.cfg splitCore cmds S₀.σ).dir c := by decide
+
+open GDemo in
+set_option maxRecDepth 16384 in
+example : ∀ c ∈ [1, 2, 3], S.σ.pc c = (seqRun Demo.cfg splitCore cmds S₀.σ).pc c := by decide
 
 end Irc.C18
